@@ -1368,6 +1368,34 @@ HOM_ARRAY_ARGS = {
 }
 
 
+def _hom_extra_table():
+    """Rows judged by HOM1 only (no expected shapes): further coordinate
+    getters of hyperbolic.py."""
+    K, P, H = "Model.KLEIN", "Model.POINCARE", "Model.HALFSPACE"
+    pt = dict(cls="Point", proj=("n",), und=1)
+    geo = dict(cls="Geodesic", proj=(2, "n"), und=2)
+    seg = dict(cls="Segment", proj=(2, "n"), aux=(2, "n"), und=2, aund=2)
+    pp = dict(cls="PointPair", proj=(2, "n"), und=2)
+    fn = dict(cls=None)
+    no = lambda O: O
+    t = [(f"Point.{g}", pt, g, [], {}, no) for g in (
+        "kleinian_coords", "poincare_coords", "halfspace_coords",
+        "hyperboloid_coords")]
+    for m in (K, P, H):
+        t.append((f"PointPair.endpoint_coords({m})", pp, "endpoint_coords",
+                  [m], {}, no))
+        t.append((f"Geodesic.endpoint_coords({m})", geo, "endpoint_coords",
+                  [m], {}, no))
+    t.append(("kleinian_coords", fn, "kleinian_coords",
+              [dict(arr=("n",))], {}, no))
+    t.append(("hyperboloid_coords", fn, "hyperboloid_coords",
+              [dict(arr=("n",))], {}, no))
+    return t
+
+
+HOM_ARRAY_ARGS.update({"kleinian_coords": (0,), "hyperboloid_coords": (0,)})
+
+
 def _run_hom_table(ctx, rid, it, table, home_rel, complex_scale=False,
                    only=None):
     from .. import hom as HM
@@ -1477,9 +1505,30 @@ def _run_hom_table(ctx, rid, it, table, home_rel, complex_scale=False,
                 elif not (h.invariant or h.wild):
                     verdict = "refuted"
                     detail = (f"{where} is multiplied by {h!r} when the "
-                              f"homogeneous coordinates are rescaled")
+                              f"homogeneous coordinates are rescaled, so it")
             if not list(flat(got)) and verdict == "proved":
                 verdict = "object"
+            for o in (got if isinstance(got, (tuple, list)) else [got]):
+                if not isinstance(o, AObj):
+                    continue
+                for slot in ("proj_data", "aux_data"):
+                    h = getattr(getattr(o, slot, None), "hom", None)
+                    if h is not None and h.mixed and h.indep:
+                        verdict = "refuted"
+                        detail = (f"the {slot} of the returned "
+                                  f"{o.cls.name if o.cls else 'object'} has "
+                                  "coordinates that scale differently from "
+                                  "each other: it is not the homogeneous "
+                                  "coordinate vector of one point, and which "
+                                  "point it is")
+                    elif slot == "proj_data" and o.cls is not None \
+                            and o.cls.name == "Isometry" and h is not None \
+                            and not (h.invariant or h.wild or h.mixed):
+                        verdict = "refuted"
+                        detail = (f"the matrix of the returned Isometry is "
+                                  f"multiplied by {h!r}: it cannot preserve "
+                                  "the Minkowski form for every "
+                                  "representative, and what it is")
             if t.tainted is not None and verdict == "proved":
                 verdict, detail = "undecided", t.tainted
         if failed is not None and verdict in ("proved", "object"):
@@ -1518,9 +1567,9 @@ def _run_hom_table(ctx, rid, it, table, home_rel, complex_scale=False,
             stats["refuted"] += 1
             r.violation(
                 rid, f"{f.fq}|{label}|variant", loc(f, f.node), label,
-                f"{detail}: the same point given by another representative "
-                "(coordinates multiplied by a non-zero, possibly negative "
-                "scalar) yields a different result", instance=inst)
+                f"{detail} changes when the same input is given by another "
+                "representative (coordinates multiplied by a non-zero, "
+                "possibly negative scalar)", instance=inst)
         elif verdict == "proved":
             stats["proved"] += 1
             r.ok(rid, inst, loc(f, f.node), "",
@@ -1571,7 +1620,8 @@ def rule_hom1(ctx, parts=("hyp", "proj", "cp1"), only=None, min_proved=0):
         it.rel_prefix = {HYP: "", CORE: "utils", PROJ_REL: "projective",
                          LIE: "lie"}
         it.ctor_model = _hyp_ctor
-        add(_run_hom_table(ctx, "HOM1", it, _sh5_table(), HYP, only=only))
+        add(_run_hom_table(ctx, "HOM1", it, _sh5_table() + _hom_extra_table(),
+                           HYP, only=only))
     if "proj" in parts:
         it = Interp(proj.tree, extra_trees=(("utils", core.tree),))
         it.project = ctx.p
